@@ -265,6 +265,75 @@ pub fn check_case(tape: &[u16], rc: &mut RCase, all_schedules: bool) -> Result<(
     Ok(())
 }
 
+/// Random IR trees (every node kind, including the ones lowering never emits): reduction is idempotent,
+/// and reducing before the arguments are applied does not change what reducing afterwards gives.
+pub fn check_tree(tape: &[u16], rc: &mut RCase) -> Result<(), Failure> {
+    use crate::irgen::{IrGen, Mode};
+    let mut t = Tape::new(tape);
+    let mode = if t.chance(3, 4) { Mode::WellTyped } else { Mode::Any };
+    let mut g = IrGen::new(&mut t, mode);
+    g.max_depth = 5;
+    let tx = g.tx();
+    let kinds = g.kinds.clone();
+    let rendered = || json!({"tir": crate::util::trunc(&format!("{:?}", tx), 4000)});
+    let key = hash64(&format!("{:?}", tx));
+    let r1 = match guard(|| tx.clone().reduce()) {
+        Ok(Ok(r)) => r,
+        Ok(Err(_)) => {
+            rc.label("tree:reduce_err");
+            rc.record(key, false, rendered);
+            return Ok(());
+        }
+        Err(_) => {
+            rc.label("tree:panic_counted_for_C14");
+            return Ok(());
+        }
+    };
+    match guard(|| r1.clone().reduce()) {
+        Ok(Ok(r2)) => {
+            if canon_of(&r1) != canon_of(&r2) {
+                return Err(Failure::new(
+                    "reduce_not_idempotent",
+                    "random IR tree: reduce(reduce(t)) != reduce(t)".to_string(),
+                    json!({"tir": crate::util::trunc(&format!("{:?}", tx), 3000), "once": crate::util::trunc(&format!("{:?}", r1), 3000), "twice": crate::util::trunc(&format!("{:?}", r2), 3000)}),
+                ));
+            }
+        }
+        other => {
+            return Err(Failure::new(
+                "reduce_not_idempotent",
+                format!("random IR tree: the second reduce fails: {:?}", other.map(|r| r.map(|_| "ok").map_err(|e| crate::util::trunc(&format!("{:?}", e), 200)))),
+                json!({"tir": crate::util::trunc(&format!("{:?}", tx), 3000), "once": crate::util::trunc(&format!("{:?}", r1), 3000)}),
+            ))
+        }
+    }
+    rc.label("tree:idempotence_judged");
+    // reduce . apply_args . reduce == reduce . apply_args (both must succeed to be compared)
+    let params = tx3_tir::reduce::find_params(&tx3_tir::encoding::AnyTir::V1Beta0(tx.clone()));
+    let mut staged = false;
+    if !params.is_empty() {
+        let args: BTreeMap<String, ArgValue> = params.iter().map(|(k, ty)| (k.clone(), super::c06::arg_for(ty, &mut t))).collect();
+        let direct = guard(|| tx.clone().apply_args(&args).and_then(|x| x.reduce())).ok().and_then(|r| r.ok());
+        let via = guard(|| r1.clone().apply_args(&args).and_then(|x| x.reduce())).ok().and_then(|r| r.ok());
+        if let (Some(a), Some(b)) = (&direct, &via) {
+            staged = true;
+            if canon_of(a) != canon_of(b) {
+                return Err(Failure::new(
+                    "early_reduce_changes_result",
+                    "random IR tree: reduce(apply_args(reduce(t))) != reduce(apply_args(t))".to_string(),
+                    json!({"tir": crate::util::trunc(&format!("{:?}", tx), 3000), "args": format!("{:?}", args), "direct": crate::util::trunc(&format!("{:?}", a), 3000), "via_early_reduce": crate::util::trunc(&format!("{:?}", b), 3000)}),
+                ));
+            }
+            rc.label("tree:early_reduce_judged");
+        } else {
+            rc.label("tree:early_reduce_not_comparable");
+        }
+    }
+    let rich = kinds.len() >= 4;
+    rc.record(key, rich && (staged || kinds.contains("BuiltIn::NoOp") || kinds.contains("BuiltIn::Property")), rendered);
+    Ok(())
+}
+
 pub fn run(tier: Tier, seed: u64) -> Report {
     let mut r = Report::new("C07", tier, seed);
     r.rule = "templates lowered from generated programs + args + UTxO sets + fee; a schedule = permutation of {args, inputs, \
@@ -272,11 +341,12 @@ pub fn run(tier: Tier, seed: u64) -> Report {
               per template incl. the resolver's and the test helper's orders; thorough adds a phase with all 768. The \
               compiler stage is admissible only when every built-in's operand is closed (independent walk); inadmissible \
               schedules are not judged. Oracle: every admissible schedule ends in the same canonical template or all in an \
-              error; reduce(reduce(t)) == reduce(t) at every point where reduce runs. distinct = hash(source); non-trivial = \
+              error; reduce(reduce(t)) == reduce(t) at every point where reduce runs. Phase ir_trees: random IR trees over every node kind (also those lowering never emits): reduce is idempotent and reduce.apply_args.reduce == reduce.apply_args when both succeed. distinct = hash(source); non-trivial = \
               >=2 admissible stage orders, Ok outcome, and a compiler-evaluated built-in present"
         .into();
     r.assumptions = vec!["canonical form = serialised template with map entries and UtxoSet arrays sorted".into()];
     r.explore("sampled_schedules", tier.pick(8_000, 100_000), 500, &|t, rc| check_case(t, rc, false));
+    r.explore("ir_trees", tier.pick(40_000, 1_500_000), 400, &|t, rc| check_tree(t, rc));
     if tier == Tier::Thorough {
         r.explore("all_768_schedules", 12_000, 500, &|t, rc| check_case(t, rc, true));
     }
@@ -287,6 +357,10 @@ pub fn replay(phase: &str, tape: &[u16], seed: u64) -> Report {
     let mut r = Report::new("C07", Tier::Quick, seed);
     r.strict = true;
     let all = phase.starts_with("all");
-    r.explore_list(phase, &[tape.to_vec()], &|t, rc| check_case(t, rc, all));
+    if phase == "ir_trees" {
+        r.explore_list(phase, &[tape.to_vec()], &|t, rc| check_tree(t, rc));
+    } else {
+        r.explore_list(phase, &[tape.to_vec()], &|t, rc| check_case(t, rc, all));
+    }
     r
 }
